@@ -50,7 +50,7 @@ UNITS += [
       replace=["a_pid_fuzzy_mf/contract_a_pid_fuzzy_mf"], cbmc=["--object-bits", "12", "--slice-formula"], timeout=120, min_obl=5,
       level="B", bound="buffer for nfuzz = 1 active set, rule base order <= 7", unwind=3, defines=["NF=1"]),
     U("fuzzy_out_buffer3", "mf2.c", "h_fuzzy_out_buffer", functions=["a_pid_fuzzy_out_"], tiers=("thorough",),
-      replace=["a_pid_fuzzy_mf/contract_a_pid_fuzzy_mf"], cbmc=["--object-bits", "12", "--slice-formula"], timeout=1800, min_obl=5,
+      replace=["a_pid_fuzzy_mf/contract_a_pid_fuzzy_mf"], cbmc=["--object-bits", "12", "--slice-formula"], timeout=1800, min_obl=5, solver="cadical",
       level="B", bound="buffer for nfuzz = 3 active sets, rule base order <= 7", unwind=5, defines=["NF=3"]),
     U("fuzzy_out_gain", "mf2.c", "h_fuzzy_out_gain", functions=["a_pid_fuzzy_out_"], replace=["a_pid_fuzzy_mf/contract_a_pid_fuzzy_mf_one"], min_obl=5,
       cbmc=["--object-bits", "12", "--slice-formula"], solver="cadical", timeout=600, unwind=18,
